@@ -85,3 +85,104 @@ Qed.
 Print Assumptions C01_spec_correct.
 Print Assumptions C01_unique_solution.
 Print Assumptions C01_choice_independent.
+
+(* ------------------------------------------------------------------------
+   The forest pipeline end to end (Spec/Pipeline.v): no productivity
+   hypothesis is left.  If the table-method model, run on the inserted forest
+   keys `ks` (any order, any `set.pop()` resolution `pick`), reports the start
+   class as pumping, and the extractor model returns `res`, and every
+   extracted key was turned back into a rule with that key, then — for genuine
+   (C09) and local (C10) rules — the recursive evaluation returns the true
+   counts of the start class at every size, and the specification has no
+   other solution there.  C03 (`sound_complete`) and C11
+   (`extract_productive`) discharge what C01_spec_correct assumes. *)
+From CSS Require Import Forest.Model Forest.Run Forest.Theorems Forest.Extractor Forest.ExtractorRun
+  Forest.ExtractorTheorems Spec.Pipeline.
+
+Theorem C01_forest_pipeline_correct :
+  forall (terms : Type) (dflt : terms) (T : nat -> Z -> terms) (spec : nat -> option (srule terms))
+         (pick : list nat -> nat) (fuel fuelx root : nat) (ks res : list bkey) (st : tm),
+  run pick fuel init (add_ops ks) = Some st ->
+  pumping_answer st root = true ->
+  (forall k, In k ks -> (bk_bucket k < 4)%nat) ->
+  extract fuelx root ks = Ok res ->
+  (forall k, In k res ->
+     exists r, spec (parent (bk_key k)) = Some r /\ kids (bk_key k) = r_kids terms r) ->
+  (forall c m, m < 0 -> T c m = dflt) ->
+  (forall r p o n, n < 0 -> r_op terms r p o n = dflt) ->
+  (forall c r, spec c = Some r -> local terms r) ->
+  (forall c r, spec c = Some r -> genuine terms T c r) ->
+  forall n, 0 <= n ->
+  exists f0, forall f, (f0 <= f)%nat -> eval terms dflt spec f root n = T root n.
+Proof.
+  intros terms dflt T spec pick fuel fuelx root ks res st.
+  exact (forest_pipeline_correct terms dflt T spec pick fuel fuelx root ks res st).
+Qed.
+
+Theorem C01_forest_pipeline_unique :
+  forall (terms : Type) (dflt : terms) (T U : nat -> Z -> terms) (spec : nat -> option (srule terms))
+         (pick : list nat -> nat) (fuel fuelx root : nat) (ks res : list bkey) (st : tm),
+  run pick fuel init (add_ops ks) = Some st ->
+  pumping_answer st root = true ->
+  (forall k, In k ks -> (bk_bucket k < 4)%nat) ->
+  extract fuelx root ks = Ok res ->
+  (forall k, In k res ->
+     exists r, spec (parent (bk_key k)) = Some r /\ kids (bk_key k) = r_kids terms r) ->
+  (forall c m, m < 0 -> T c m = dflt) ->
+  (forall c r, spec c = Some r -> local terms r) ->
+  (forall c r, spec c = Some r -> genuine terms T c r) ->
+  (forall c m, m < 0 -> U c m = dflt) ->
+  (forall c r n, spec c = Some r -> 0 <= n ->
+     r_op terms r (fun i m => U (kid terms r i) m) (U c) n = U c n) ->
+  forall n, 0 <= n -> U root n = T root n.
+Proof.
+  intros terms dflt T U spec pick fuel fuelx root ks res st H1 H2 H3 H4 H5 H6 H7 H8 H9 H10.
+  exact (forest_pipeline_unique terms dflt T spec pick fuel fuelx root ks res st
+           H1 H2 H3 H4 H5 H6 H7 H8 U H9 H10).
+Qed.
+
+(* non-vacuity: words over a one-letter alphabet, W = epsilon + a W written as the
+   single rule  0 -> (0 shifted by 1)  whose operator puts the empty word in by hand;
+   T 0 n = 1.  The table method reports class 0 as pumping, the extractor keeps
+   the rule, and all hypotheses of the pipeline theorem hold. *)
+Definition ex_rule : srule Z :=
+  mkrule Z [(0%nat, 1)] (fun p _ n => if n <? 0 then 0 else if n =? 0 then 1 else p 0%nat (n - 1)).
+Definition ex_spec (c : nat) : option (srule Z) := match c with O => Some ex_rule | _ => None end.
+Definition ex_T (c : nat) (n : Z) : Z := match c with O => if n <? 0 then 0 else 1 | _ => 0 end.
+Definition ex_ks : list bkey := [mkb (mkkey 0 [(0%nat, 1)]) 1].
+
+Example C01_forest_pipeline_nonvacuous :
+  exists st res,
+    run pick0 50 init (add_ops ex_ks) = Some st /\ pumping_answer st 0 = true /\
+    (forall k, In k ex_ks -> (bk_bucket k < 4)%nat) /\
+    extract 50 0 ex_ks = Ok res /\ res <> [] /\
+    (forall k, In k res -> exists r, ex_spec (parent (bk_key k)) = Some r /\
+                                     kids (bk_key k) = r_kids Z r) /\
+    (forall c m, m < 0 -> ex_T c m = 0) /\
+    (forall r p o n, ex_spec 0 = Some r -> n < 0 -> r_op Z r p o n = 0) /\
+    (forall c r, ex_spec c = Some r -> local Z r) /\
+    (forall c r, ex_spec c = Some r -> genuine Z ex_T c r).
+Proof.
+  eexists. exists ex_ks. split; [vm_compute; reflexivity|].
+  split; [vm_compute; reflexivity|].
+  split; [intros k [<-|[]]; simpl; auto with arith|].
+  split; [vm_compute; reflexivity|].
+  split; [discriminate|].
+  split; [intros k [<-|[]]; exists ex_rule; split; reflexivity|].
+  split; [intros [|c] m Hm; simpl; auto; apply Z.ltb_lt in Hm; rewrite Hm; reflexivity|].
+  split; [intros r p o n E Hn; injection E as <-; simpl; apply Z.ltb_lt in Hn; rewrite Hn; reflexivity|].
+  split.
+  - intros [|c] r E; [|discriminate]. injection E as <-.
+    intros p p' o o' n Hp Ho. simpl.
+    destruct (n <? 0) eqn:E1; auto. destruct (n =? 0) eqn:E2; auto.
+    apply Hp; simpl; auto. unfold shift; simpl. apply Z.le_refl.
+  - intros [|c] r E; [|discriminate]. injection E as <-.
+    intros n Hn. simpl. unfold kid; simpl.
+    assert (n <? 0 = false) as -> by (apply Z.ltb_ge; auto).
+    destruct (n =? 0) eqn:E2; auto.
+    assert (n - 1 <? 0 = false) as ->; auto.
+    apply Z.ltb_ge. apply Z.eqb_neq in E2. apply Z.lt_le_pred. apply Z.le_neq; auto.
+Qed.
+
+Print Assumptions C01_forest_pipeline_correct.
+Print Assumptions C01_forest_pipeline_unique.
